@@ -1,8 +1,12 @@
 #!/bin/sh
 # usage: tools/try_patch.sh <patch.diff> <check args...>   e.g.  tools/try_patch.sh seeded/x/patch.diff C16 quick
-# Applies a seeded change to /repo, runs one check, and always undoes the change.
+# Applies a seeded change to /repo, runs one check, and always undoes the change. The evidence file of
+# the check (which describes runs on /repo itself, unchanged) is put back afterwards.
 p="$1"; shift
+id="$1"
+bak=$(mktemp)
+[ -f /verif/evidence/$id.json ] && cp /verif/evidence/$id.json "$bak"
 git -C /repo apply "$p" || exit 2
-trap 'git -C /repo checkout -- . ; git -C /repo clean -fdq' EXIT
+trap 'git -C /repo checkout -- . ; git -C /repo clean -fdq; [ -s "$bak" ] && cp "$bak" /verif/evidence/$id.json; rm -f "$bak"' EXIT
 cd /verif && ./check "$@"
 echo "exit=$?"
